@@ -852,14 +852,24 @@ def rand_impl(rng):
         forks = {}
         for a in ins:
             n = Node(c, a, 'input'); c.io_nodes.append(n); forks[a] = Node(c, a); Line(c, n, forks[a])
+        tags = ['vstyle']
+        # output ports created as soon as their signal exists: the port's line gets a LOWER fork pin than later readers, so an open
+        # instance pin leaves a gap in the copied fork (shape of D30)
+        early = rng.random() < 0.4
+        if ins and rng.random() < 0.12:    # feed-through as FIRST output: the walk for the designated cell ends at a port (shape of D32)
+            n = Node(c, 'ft0_o', 'output'); c.io_nodes.append(n); Line(c, forks[rng.choice(ins)], n); tags.append('feedthrough-first')
+        done = set()
         for name, kind, args in gates:
             cell = Node(c, name, kind); forks[name] = Node(c, name); Line(c, cell, forks[name])
             for a in args: Line(c, forks[a], cell)
+            if early and name in outs:
+                n = Node(c, name + '_o', 'output'); c.io_nodes.append(n); Line(c, forks[name], n); done.add(name)
+        if done: tags.append('early-out-ports')
         for o in outs:
+            if o in done: continue
             n = Node(c, o + '_o', 'output'); c.io_nodes.append(n); Line(c, forks[o], n)
         if ins and rng.random() < 0.15:    # feed-through: an input port wired to an output port
             n = Node(c, 'ft_o', 'output'); c.io_nodes.append(n); Line(c, forks[rng.choice(ins)], n)
-        tags = ['vstyle']
     else:
         txt = (f"input({','.join(ins)}) " if ins else '') + (f"output({','.join(outs)}) " if outs else '') + \
               ' '.join(f"{n}={kd}({','.join(a)})" for n, kd, a in gates)
@@ -1236,8 +1246,9 @@ def run(ck):
         'elim_sem is stated for every consistent labelling (no uniqueness needed); that LogicSim computes a consistent labelling is C01',
         'substitute: ports, state elements (up to order; names and order in the regular same-class case), pin-by-pin wiring and '
         'the equations outside the cell are theorems about the model; substitute_sem / substitute_sem_removing / resolve_sem (the copied '
-        'implementation has the relational meaning of the cell) are theorems about the model under decidable hypotheses (designated '
-        'cell that is no port, no connected-but-ignored input pin, implOKB; resolve: no substitution removes anything) - the harness '
+        'implementation has the relational meaning of the cell) are theorems about the model under decidable hypotheses (a designated '
+        'cell exists, no connected-but-ignored input pin, implOKB; resolve: no substitution removes anything; copied forks with a gap '
+        'squeezed by the code repaired for D30 are included) - the harness '
         'counts the real cases inside these hypotheses (driver substok / resolveok) and checks the well-formedness of the real '
         'result there; outside them the function after substitute / resolve_tlib_cells is validated by simulation before/after only',
         'the function is observed through the real LogicSim(m=2) (C01); reference of a circuit with library cells = the same '
